@@ -28,7 +28,6 @@ using namespace ace_time::clock;
 
 Print VerifSerial;
 extern "C" unsigned long millis() { return 0; }
-long ace_time_verif_basic_dropped = 0;
 
 static const long INV = (long) INT32_MIN;
 
